@@ -215,6 +215,9 @@ fn wrappers(call: &str) -> Vec<String> {
         format!("`[[1]]`[?{}]", call),
         // code points that some line-break conventions treat as line terminators, inside string tokens: only LF
         // starts a new line
+        // the first failing value of a multi-select (in source order) is the one reported
+        format!("{{a: {}, b: nosuchfn(@), c: abs('x')}}", call),
+        format!("[{}, nosuchfn(@), abs('x')]", call),
         format!("'a\u{2028}b\u{2029}' && {}", call),
         format!("\"\u{85}\u{2028}\" || \n'\r\u{b}\u{c}' && {}", call),
     ]
